@@ -2,6 +2,7 @@
 Driver for C15. Trace lines of one case (produced by harness/cmd/verifharness/c15.go):
 
   stack <fs|sql|mix> <letters…|->      z:<sample> g:<sample> t c:<max> o e:<d>:<p>:<stripe>
+  fixes sql=<0|1> ec=<0|1> tink=<0|1>  repairs present in the tree under test (probed by the harness)
   caps <get> <put> <del>
   put <tx|notx> <id> <content> <ok|err> [panic]
   get <tx|notx> <id> (nf | ok <content> | err <open|read>) [panic]
@@ -18,29 +19,22 @@ and compares every observation (tie), and (2) judges the observed history agains
 itself: a reference map id ↦ content (judge).
 -/
 import Pithos.Util.Proto
-import Pithos.Model.PartStore
+import Pithos.Model.PartStoreToy
 open Pithos Pithos.Proto Pithos.Codec Pithos.PartStore
 
 namespace C15
 
 /-- Toy primitives: the tie compares API-level observations only, so any primitives that satisfy the
-round-trip hypotheses of the theorems will do. -/
-def prims : Prims where
-  crc := fun b => b.foldl (fun a x => (a * 31 + x.toNat) % 18446744073709551616) 7
-  compress := fun _ b => b
-  decompress := fun _ b => some b
-  shouldCompress := fun sample _ b => decide (1024 ≤ (b.take sample).length)
-  tinkSeal := fun r i b => [0x54, UInt8.ofNat r, UInt8.ofNat i] ++ b
-  tinkOpen := fun i x => if x.take 1 == [0x54] && x.getD 2 0 == UInt8.ofNat i then some (x.drop 3) else none
-  lastSeg := fun b =>
-    let first := 128 * 1024 - 40 - 16
-    let seg := 128 * 1024 - 16
-    if b.length ≤ first then b else
-    let rem := (b.length - first) % seg
-    if rem = 0 then b.drop (b.length - seg) else b.drop (b.length - rem)
-  code := { parity := fun _ p data => List.replicate p ((data.headD []).map fun _ => 0),
-            reconstruct := fun _ _ _ => none, reconstructAll := fun _ _ _ => none }
-  hash := fun b => List.replicate 31 0 ++ [UInt8.ofNat (b.foldl (fun a x => a + x.toNat) 0)]
+round-trip hypotheses of the theorems will do (`Pithos.PartStore.toyPrims`). -/
+def prims : Prims := toyPrims
+
+/-- The sampling decision of `compression.PutPart` (does the sample shrink to 95 % under the real gzip /
+zstd?) is opaque to the model. It is observable in exactly one way: an uncompressed part is handed
+out as the inner reader itself and stays seekable, which decides whether a second tink layer above
+fails (known finding). The tie therefore runs the model under both constant decisions and accepts
+an observation that matches either. -/
+def primsYes : Prims := { toyPrims with shouldCompress := fun _ _ _ => true }
+def primsNo : Prims := { toyPrims with shouldCompress := fun _ _ _ => false }
 
 def parseLetter (s : String) : Option Mw :=
   match s.splitOn ":" with
@@ -119,17 +113,26 @@ def judgeCase (_k : Nat) (lines : List String) : Verdict := Id.run do
     | _ => return { diverge := ["unparsable-trace:no-stack-line"] }
   let some mws := word.mapM parseLetter | return { diverge := ["unparsable-trace:stack-letter"] }
   let mbase : Base := if base == "sql" then .sql else .fs   -- "mix": leaves alternate fs/sql; only ever below e
-  let body := (lines.drop 1).filter fun l => !(l.startsWith "caps ")
+  -- which repairs the tree under test carries (probed by the harness): selects the model variant for the tie
+  let fixTok := ((lines.find? (·.startsWith "fixes ")).map tokens).getD []
+  let fx : Fixes := { sqlEmptyRow := fixTok.contains "sql=1",
+                      ec := { notFoundWhenAllMissing := fixTok.contains "ec=1", healParity := false },
+                      tinkStickyEof := fixTok.contains "tink=1" }
+  let body := (lines.drop 1).filter fun l => !(l.startsWith "caps ") && !(l.startsWith "fixes ")
   if let some p := body.find? (·.startsWith "panic ") then
     return { violations := [("C15.case-panicked", p)], fingerprint := fpLines lines }
+  if let some p := body.find? (·.startsWith "hang ") then
+    return { violations := [("C15.operation-did-not-return", p)], fingerprint := fpLines lines }
   let some ls := body.mapM parseLine | return { diverge := ["unparsable-trace:op-line"] }
-  let S := stack prims Fixes.asIs mws mbase
+  let S := stack primsYes fx mws mbase
+  let S2 := stack primsNo fx mws mbase
   -- facts about the stack used to make signatures narrow
   let hasEc := mws.any isEc
   let tinks := (mws.filter (· == .tink)).length
   let emptyReachesSql := base == "sql" && mws.all isPassThrough
   let outboxBelowEc := ((mws.dropWhile (fun m => !isEc m)).any (· == .outbox))
   let mut s := S.init
+  let mut s2 := S2.init
   let mut live : List (Nat × Bytes) := []       -- the judge's reference map
   let mut ghosted : List Nat := []               -- ids read while absent (judge bookkeeping for signatures)
   let mut div : List String := []
@@ -140,6 +143,8 @@ def judgeCase (_k : Nat) (lines : List String) : Verdict := Id.run do
   for ln in ls do
     let (s', mobs) := step S s ln.op
     s := s'
+    let (s2', mobs2) := step S2 s2 ln.op
+    s2 := s2'
     let bump (name : String) (st : List (String × Nat)) := addStats st [(name, 1)]
     match ln.op, ln.res with
     | .put tx i b, .done ok =>
@@ -152,13 +157,16 @@ def judgeCase (_k : Nat) (lines : List String) : Verdict := Id.run do
     | .get tx i, .got o =>
       stats := bump (if tx then "get_tx" else "get_notx") stats
       -- tie
-      let m : Option (Option Bytes) × Bool := match mobs with
+      let view (ob : Obs) : Option (Option Bytes) × Bool := match ob with
         | .got .notFound p => (some none, p)
         | .got (.ok st) p => (some (some st.bytes), p)
         | .got .err p => (none, p)
         | _ => (none, false)
-      if m.1 != o then div := div ++ [s!"op{idx}:get-{i}:model={showObs m.1},impl={showObs o}"]
-      if m.2 != ln.panicked then div := div ++ [s!"op{idx}:get-{i}:model-panic={m.2},impl-panic={ln.panicked}"]
+      let m := view mobs
+      let m2 := view mobs2
+      if m.1 != m2.1 then stats := bump "get_depends_on_compress_decision" stats
+      if m.1 != o && m2.1 != o then div := div ++ [s!"op{idx}:get-{i}:model={showObs m.1}|{showObs m2.1},impl={showObs o}"]
+      if m.2 != ln.panicked && m2.2 != ln.panicked then div := div ++ [s!"op{idx}:get-{i}:model-panic={m.2},impl-panic={ln.panicked}"]
       -- judge
       let expect := (live.find? (·.1 == i)).map (·.2)
       match expect, o with
@@ -188,7 +196,10 @@ def judgeCase (_k : Nat) (lines : List String) : Verdict := Id.run do
       let m := match mobs with
         | .ids ml => sortNat ml
         | _ => []
-      if m != sortNat l then div := div ++ [s!"op{idx}:ids:model={m},impl={l}"]
+      let m2 := match mobs2 with
+        | .ids ml => sortNat ml
+        | _ => []
+      if m != sortNat l && m2 != sortNat l then div := div ++ [s!"op{idx}:ids:model={m},impl={l}"]
       let want := sortNat (live.map (·.1))
       if unknown then vio := vio ++ [("C15.ids-lists-foreign-id", s!"op{idx}")]
       if dups then vio := vio ++ [("C15.ids-duplicates", s!"op{idx}")]
@@ -211,7 +222,8 @@ def judgeCase (_k : Nat) (lines : List String) : Verdict := Id.run do
       | .get _ _ => pure ()
       | _ => vio := vio ++ [("C15.panic-in-shard-store-call", s!"op{idx}")]
     idx := idx + 1
-  stats := addStats stats [(s!"depth_{mws.length}", 1), (s!"base_{base}", 1)]
+  stats := addStats stats [(s!"depth_{mws.length}", 1), (s!"base_{base}", 1),
+    (s!"model_variant_sql{if fx.sqlEmptyRow then 1 else 0}_ec{if fx.ec.notFoundWhenAllMissing then 1 else 0}_tink{if fx.tinkStickyEof then 1 else 0}", 1)]
   for m in mws do
     let nm := match m with
       | .compress .zstd _ => "mw_zstd" | .compress _ _ => "mw_gzip" | .tink => "mw_tink"
